@@ -129,7 +129,7 @@ theorem traceFlagsFromHex_eq (f : Bytes) : B3.traceFlagsFromHex f = .ok (b3Decis
   | [] => simp
   | [c] =>
     have hrd : Idx.rd [c] 0 = .ok c := Idx.rd_at' [] c [] 0 rfl
-    simp only [List.length_cons, List.length_nil, ne_eq, not_true, if_false, hrd, Res.bind_ok]
+    simp only [List.length_cons, List.length_nil, ne_eq, not_true, if_false, hrd, IxRes.bind_ok]
     by_cases h1 : c = 49
     · subst h1; simp
     · by_cases h2 : c = 100
@@ -144,7 +144,7 @@ theorem b3_fields_eq (b3 tid sid smp : Bytes) : B3.fields b3 tid sid smp = .ok (
   cases b3 with
   | nil => simp
   | cons c t =>
-    simp only [List.isEmpty_cons, Bool.not_false, if_true, Res.bind_ok, reduceCtorEq, if_false]
+    simp only [List.isEmpty_cons, Bool.not_false, if_true, IxRes.bind_ok, reduceCtorEq, if_false]
     split <;> rfl
 
 theorem hexPairs_length : ∀ s : Bytes, (hexPairs s).length = s.length / 2
@@ -178,7 +178,7 @@ theorem isValid_of_nonzero (t s : Bytes) (fl : UInt8) (h : (allZero t || allZero
 theorem b3_extract_eq (b3 tid sid smp : Bytes) : B3.extract b3 tid sid smp = .ok (b3Pure b3 tid sid smp) := by
   obtain ⟨_, _, _, g4, g5, _⟩ := gen_b3
   unfold B3.extract B3.extractImpl b3Pure
-  rw [b3_fields_eq, Res.bind_ok, g4, g5]
+  rw [b3_fields_eq, IxRes.bind_ok, g4, g5]
   cases b3Fields b3 tid sid smp with
   | none => rfl
   | some p =>
@@ -190,11 +190,11 @@ theorem b3_extract_eq (b3 tid sid smp : Bytes) : B3.extract b3 tid sid smp = .ok
       have e1 : (32 : Nat) / 2 = 16 := rfl
       have e2 : (16 : Nat) / 2 = 8 := rfl
       simp only [hv'.1, hv'.2, Bool.not_true, Bool.or_false, Bool.false_eq_true, if_false, e1, e2,
-        Idx.hexToBinary_eq th 16 hv'.1, Idx.hexToBinary_eq sh 8 hv'.2, Res.bind_ok, Bool.and_self, if_true, traceFlagsFromHex_eq]
+        Idx.hexToBinary_eq th 16 hv'.1, Idx.hexToBinary_eq sh 8 hv'.2, IxRes.bind_ok, Bool.and_self, if_true, traceFlagsFromHex_eq]
       by_cases hz : (allZero (hexToBinary th 16).2 || allZero (hexToBinary sh 8).2) = true
       · simp [hz]
       · have hz' : (allZero (hexToBinary th 16).2 || allZero (hexToBinary sh 8).2) = false := by simpa using hz
-        simp only [hz', Bool.false_eq_true, if_false, Res.map_ok, Option.filter, isValid_of_nonzero _ _ _ hz', if_true]
+        simp only [hz', Bool.false_eq_true, if_false, IxRes.map_ok, Option.filter, isValid_of_nonzero _ _ _ hz', if_true]
     · have hv' : (isValidHex th && isValidHex sh) = false := by simpa using hv
       have : (!isValidHex th || !isValidHex sh) = true := by
         cases h1 : isValidHex th <;> cases h2 : isValidHex sh <;> simp [h1, h2] at hv' ⊢
@@ -221,7 +221,7 @@ theorem hexToBinary_ok_iff (hex : Bytes) (n : Nat) : (hexToBinary hex n).1 = tru
 theorem jaeger_extract_eq (h : Bytes) : Jaeger.extract h = .ok (jaegerPure h) := by
   obtain ⟨g1, g2, g3, _⟩ := gen_jaeger
   unfold Jaeger.extract Jaeger.extractImpl jaegerPure Jaeger.getTraceFlags
-  rw [g1, g2, g3, Idx.splitString_eq, Res.bind_ok]
+  rw [g1, g2, g3, Idx.splitString_eq, IxRes.bind_ok]
   generalize splitString 58 4 h = fs
   by_cases hlen : fs.length = 4
   · have hlen' : ¬ fs.length ≠ 4 := fun hn => hn hlen
@@ -236,7 +236,7 @@ theorem jaeger_extract_eq (h : Bytes) : Jaeger.extract h = .ok (jaegerPure h) :=
       simp only [Bool.and_eq_true] at hv'
       obtain ⟨⟨v1, v2⟩, v3⟩ := hv'
       simp only [v1, v2, v3, Bool.not_true, Bool.or_false, Bool.false_eq_true, if_false, Bool.and_self, Bool.true_and,
-        Idx.hexToBinary_eq th 16 v1, Idx.hexToBinary_eq sh 8 v2, Idx.hexToBinary_eq fh 1 v3, Res.bind_ok]
+        Idx.hexToBinary_eq th 16 v1, Idx.hexToBinary_eq sh 8 v2, Idx.hexToBinary_eq fh 1 v3, IxRes.bind_ok]
       by_cases l1 : th.length ≤ 32
       · have o1 : (hexToBinary th 16).1 = true := (hexToBinary_ok_iff th 16).2 (by omega)
         by_cases l2 : sh.length ≤ 16
@@ -245,7 +245,7 @@ theorem jaeger_extract_eq (h : Bytes) : Jaeger.extract h = .ok (jaegerPure h) :=
           · have o3 : (hexToBinary fh 1).1 = true := (hexToBinary_ok_iff fh 1).2 (by omega)
             obtain ⟨x, hx⟩ := hexToBinary_one fh l3
             simp only [o1, o2, o3, l1, l2, l3, decide_true, Bool.not_true, Bool.false_eq_true, if_false, Bool.and_self, if_true, hx,
-              List.headD_cons, Res.map_ok]
+              List.headD_cons, IxRes.map_ok]
             by_cases hz : (allZero (hexToBinary th 16).2 || allZero (hexToBinary sh 8).2) = true
             · simp [hz, Option.filter, isValid_of_zero _ _ _ hz]
             · have hz' : (allZero (hexToBinary th 16).2 || allZero (hexToBinary sh 8).2) = false := by simpa using hz
@@ -747,7 +747,7 @@ theorem b3_extract_iff (b3 tid sid smp : Bytes) (sc : SpanCtx) :
   constructor
   · rw [b3_extract_eq]
     intro h
-    simp only [Res.ok.injEq] at h
+    simp only [IxRes.ok.injEq] at h
     unfold b3Pure at h
     cases hf : b3Fields b3 tid sid smp with
     | none => rw [hf] at h; simp at h
@@ -792,7 +792,7 @@ theorem jaeger_extract_iff (h : Bytes) (sc : SpanCtx) :
   constructor
   · rw [jaeger_extract_eq]
     intro hx
-    simp only [Res.ok.injEq] at hx
+    simp only [IxRes.ok.injEq] at hx
     unfold jaegerPure at hx
     simp only [] at hx
     by_cases hlen : (splitString 58 4 h).length = 4
